@@ -24,7 +24,8 @@ type DocOpts struct {
 	ChainFan bool
 	// WideFan, when > 0, is the fan-out of the two levels below the document
 	// element (sibling indexes of two digits).
-	WideFan int
+	BroadFan int // > 0: the document element has 17..BroadFan children
+	WideFan  int
 	// NS, when non-nil, decorates elements/attributes with prefixes and namespace URIs.
 	NS *NSOpts
 }
@@ -62,6 +63,9 @@ func Doc(t *rapid.T, o DocOpts) *xdoc.Doc {
 			}
 			if o.WideFan > 0 && d <= 3 {
 				n = rapid.IntRange(0, o.WideFan).Draw(t, "widefan")
+			}
+			if o.BroadFan > 0 && d == 1 {
+				n = rapid.IntRange(17, o.BroadFan).Draw(t, "broadfan")
 			}
 		}
 		for i := 0; i < n; i++ {
@@ -212,6 +216,13 @@ func Shape(t *rapid.T, o *DocOpts) string {
 	case 0:
 		o.MaxDepth, o.MaxFan = 7, 2
 		return "doc:deep"
+	case 2:
+		// one element with 17..40 children (buffers of 16 and 32 entries end inside), small below
+		o.BroadFan, o.MaxDepth, o.MaxFan = 40, 3, 2
+		if o.MaxAttrs > 1 {
+			o.MaxAttrs = 1
+		}
+		return "doc:broad"
 	case 1:
 		o.WideFan = 13
 		if o.MaxAttrs > 1 {
